@@ -2,6 +2,8 @@ package types
 
 import (
 	"fmt"
+
+	"github.com/ethereum/go-ethereum/common"
 )
 
 // NewGenesisState creates a new genesis state
@@ -25,19 +27,26 @@ func (gs GenesisState) Validate() error {
 	seenDenom := make(map[string]bool)
 
 	for _, b := range gs.TokenPairs {
-		if seenErc20[b.ERC20Address] {
-			return fmt.Errorf("token ERC20 contract duplicated on genesis '%s'", b.ERC20Address)
-		}
-		if seenDenom[b.Denoms[0]] {
-			return fmt.Errorf("coin denomination duplicated on genesis: '%s'", b.Denoms[0])
-		}
-
 		if err := b.Validate(); err != nil {
 			return err
 		}
-
-		seenErc20[b.ERC20Address] = true
-		seenDenom[b.Denoms[0]] = true
+		// a pair lists at least one denomination (its id is derived from the first one)
+		if len(b.Denoms) == 0 {
+			return fmt.Errorf("token pair '%s' has no coin denomination", b.ERC20Address)
+		}
+		// a contract belongs to one pair only, whatever the letter case of its hex address
+		erc20 := common.HexToAddress(b.ERC20Address).String()
+		if seenErc20[erc20] {
+			return fmt.Errorf("token ERC20 contract duplicated on genesis '%s'", b.ERC20Address)
+		}
+		seenErc20[erc20] = true
+		// and so does every denomination the pair lists, not only the first one
+		for _, denom := range b.Denoms {
+			if seenDenom[denom] {
+				return fmt.Errorf("coin denomination duplicated on genesis: '%s'", denom)
+			}
+			seenDenom[denom] = true
+		}
 	}
 
 	return gs.Params.Validate()
